@@ -178,6 +178,18 @@ return __ALL if _N == 0 else __SAME
     restore_rule(ctx, 'C04.R4')
     ctx.floor('C04.R3', 6)
     _roles(ctx)
+    # "... nor on how the rows are split into parts whose values are added": the parts Database.split hands out are a partition
+    ctx.rule('C04.R6', 'the folds of Database.split partition the rows (rules of C13.R3): the values of the validation parts add up to the value of the whole sample')
+    from . import c13
+
+    sub = Ctx(ctx.prog, ctx.prop, ctx.tier)
+    c13.run(sub)
+    got = 0
+    for o in sub.obligations:
+        if o.rule == 'C13.R3' and o.construct.startswith('Database.split'):
+            got += 1
+            ctx.adopt('C04.R6', o)
+    ctx.need(got >= 4, 'the obligations of C13.R3 on Database.split')
 
 
 _B = 'src/biogeme/biogeme.py'
